@@ -200,13 +200,24 @@ def run_iv(eng, p):
                    'something else changed'})
     p.oblige(f'{N}/argument-not-modified',
              len(exprs.parts) == 1 and z3.eq(exprs.parts[0].seq, F))
+    # C15: nothing that could use a symbol (anything but set-info /
+    # set-logic) comes before the declarations
+    p.oblige('C15/introduce_variables/declarations-precede-every-command-'
+             'that-could-use-them',
+             mk_bool(z3.And(
+                 0 <= k, k <= n,
+                 z3.PrefixOf(z3.Concat(z3.SubSeq(F, 0, k), V), R),
+                 z3.ForAll([i], z3.Implies(z3.And(0 <= i, i < k),
+                                           pre(F[i]))))),
+             info={'signature': 'a declaration is inserted behind a command '
+                   'that is not a set-info / set-logic command'})
 
 
 def contracts(tier):
     from . import rebuild
     kmax = 5 if tier == 'thorough' else 3
     cs = list(rebuild.substitute_contracts(tier))
-    cs.append(Contract('C11/introduce_variables[any list]', [IV], run_iv,
+    cs.append(Contract('introduce_variables[any list]', [IV], run_iv,
                        setup=setup_iv, assumptions=[
                            nm.ASSUME_LAZY, 'the lists of commands and of '
                            'declarations are abstract lists of arbitrary '
